@@ -39,3 +39,25 @@ func (t *SerializableTime) UnmarshalJSON(data []byte) error {
 
 	return nil
 }
+
+// MarshalYAML implements yaml.Marshaler.
+func (t SerializableTime) MarshalYAML() (interface{}, error) {
+	return t.Format(time.TimeOnly), nil
+}
+
+// UnmarshalYAML implements the (legacy) yaml.Unmarshaler interface, which needs no YAML import.
+func (t *SerializableTime) UnmarshalYAML(unmarshal func(interface{}) error) error {
+	var s string
+	if err := unmarshal(&s); err != nil {
+		return err
+	}
+
+	parsed, err := time.Parse(time.TimeOnly, s)
+	if err != nil {
+		return fmt.Errorf("unable to parse time from YAML: %w", err)
+	}
+
+	t.Time = parsed
+
+	return nil
+}
